@@ -1,5 +1,6 @@
 import QV.Wire
 import QV.Shared.SchedWire
+import QV.Shared.HandlerWire
 import QV.C22.Spec
 /-! Driver side of the C22 correspondence check. -/
 namespace QV.C22
@@ -31,6 +32,9 @@ def handle (inp out : Sexp) : CaseResult :=
   | .list [.atom "corpus", p] => handleProgram "corpus" p out
   | .list [.atom "table", p] => handleProgram "table" p out
   | .list [.atom "random", p] => handleProgram "random" p out
+  | .list [.atom "ast", instrs, sigs, real] =>
+    HandlerWire.handleAst instrs sigs real out (fun _ _ b ns es => nodesOk b ns es && hypB b && dagSpecB b es)
+      (fun b => b.instrs.length ≥ 2) tagsOf
   | _ => .bad s!"undecodable input {inp}"
 
 end QV.C22
